@@ -33,6 +33,10 @@ enum Ob {
 
 /// The conjunction of `lits` must be unsatisfiable on the current path.
 fn must_be_unsat(lits: &[crate::term::Lit], what: &str) -> Ob {
+    // past the exploration's slice of the time box nothing more is asked of the solver
+    if with(|c| c.job_deadline.map_or(false, |d| std::time::Instant::now() > d)) {
+        engine::abort(engine::Abort::Truncated("job time cap reached".into()));
+    }
     let mut m = Witness::default();
     match feasible(lits, Some(&mut m)) {
         Answer::Unsat => Ob::Ok,
